@@ -293,8 +293,13 @@ def stepRun (s : St) (impl : String) : St × StepOut := Id.run do
   let mut pending : Option String := none
   let dial := m.get "dial"
   let vn := s.scn.get "vn"
-  if b1 (m.get "hang") || m.get "redial" == "hang" then
+  if b1 (m.get "hang") || m.get "redial" == "hang" || b1 (m.get "leaked") then
     fails := fails ++ [("dial_hang", "-", impl)]
+  -- the application cancelled the dial context: Dial returns at once (it only waits for the run loop to end, which
+  -- takes no virtual time), with the context's error, and leaves nothing behind
+  let cancelled := m.get "clag" != "-1" && m.get "clag" != ""
+  if cancelled && (b1 (m.get "hang") || b1 (m.get "leaked") || intOf (m.get "clag") > 1000000000) then
+    fails := fails ++ [("no_hang", "-", s!"Dial did not return after its context was cancelled: {impl}")]
   -- a dial is re-created at most once: the second connection has its version negotiated
   if natOf (m.get "att") > 2 then
     fails := fails ++ [("no_effect_after_version_negotiated", "-", s!"{m.get "att"} connection attempts (versions {m.get "vers"}) in one dial")]
@@ -321,7 +326,9 @@ def stepRun (s : St) (impl : String) : St × StepOut := Id.run do
       fails := fails ++ [("success_without_common_version", "-", impl)]
     if s.scn.get "net" == "blackhole" || s.scn.get "net" == "hsblock" then
       fails := fails ++ [("success_without_server_flight", "-", impl)]
-  if m.get "cleft" != "0" || m.get "sleft" != "0" then
+  -- (a dial cancelled by the application is destroyed without a CONNECTION_CLOSE: the server may be left with a
+  -- connection until ITS timeouts run out, which can be the 30 s idle timeout if the client's Finished was already out)
+  if m.get "cleft" != "0" || (m.get "sleft" != "0" && !cancelled) then
     fails := fails ++ [("state_not_released", "-", impl)]
   if dial != "nil" && !(m.get "redial" == "nil" || m.get "redial" == "-") then
     -- same root cause as above: with a zero-length source connection ID the closed-connection placeholder of an
@@ -387,7 +394,7 @@ handshake converges -/
 def final (s : St) : List (String × String × String) :=
   let complete := s.ran && s.ntrace == s.seenPkts
   (if complete && s.run.get "dial" != "nil" && s.scn.get "vn" != "fail" && (s.scn.get "net" == "ok" || s.scn.get "net" == "") &&
-      !s.effective && !s.harmed then
+      (s.run.get "clag" == "-1" || s.run.get "clag" == "") && !s.effective && !s.harmed then
     [("bounded_faults_do_not_converge", "-", s!"dial={s.run.get "dial"} with {s.nFault} faults and {s.nInj} ineffective injections")]
   else []) ++
   (match s.pendingAgree with
